@@ -142,6 +142,15 @@ def _wait_sites(fb, fn, F):
 def _cv_roles(fb, fns, F):
     """consumer cv: waited on with a predicate that reads queue.empty(); producer cv: predicate reads queue.size()."""
     cons = prod = None
+    # by role: the variable a producer (a function that inserts) waits on is the producers' variable
+    for fn in fns:
+        if _qcalls(fn, F, ('push', 'emplace')):
+            for cv in F['cvs']:
+                if _cvcalls(fn, cv, ('wait', 'wait_for', 'wait_until')):
+                    prod = cv
+    if prod is not None and len(F['cvs']) == 2:
+        cons = [c for c in F['cvs'] if c != prod][0]
+        return cons, prod
     for fn in fns:
         for (c, cv, timed, lockd, g, pred) in _wait_sites(fb, fn, F):
             if g is None:
@@ -338,7 +347,8 @@ def _queue_shapes(fb, R, rec, fns, F, cons, prod):
                 ds = _disjuncts(g, pred)
                 ok = any(_reads_flag_negated(g, d, F) for d in ds) and any(_is_not_empty(g, d, F) for d in ds)
             R.check(ok, 'Q4-consumer-predicate', '%s#wait' % fn.q, fn.loc(c['id']),
-                    'consumer wait in %s: predicate must be a disjunction containing !%s and !%s.empty()' % (fn.q, F['flag'], F['queue']))
+                    'consumer wait in %s: must be a predicate wait whose predicate is a disjunction containing !%s and !%s.empty() '
+                    '(a bare wait() is not re-checked after a wake-up: another consumer can take the element first)' % (fn.q, F['flag'], F['queue']))
     if ncw == 0:
         R.broken('%s: no consumer wait found' % rec.full)
 
